@@ -1066,17 +1066,19 @@ func (e *MetaCDC) startReplicateAPIEvent(replicateCtx context.Context, entity *R
 				if replicateAPIEvent.EventType == api.ReplicateError {
 					log.Warn("receive the error event", zap.Any("event", replicateAPIEvent), zap.String("task_id", taskID))
 					_ = e.pauseTaskWithReason(taskID, "fail to read the replicate event", []meta.TaskState{})
-					return
+					// the goroutine serves every task of this target: it goes on after one task has been paused
+					continue
 				}
 				if !e.isRunningTask(taskID) {
 					log.Warn("not running task", zap.Any("event", replicateAPIEvent), zap.String("task_id", taskID))
-					return
+					continue
 				}
 				if replicateAPIEvent.EventType == api.ReplicateCreateCollection {
 					writeCallback := NewWriteCallback(e.metaStoreFactory, e.rootPath, taskID)
 					collectionID := replicateAPIEvent.CollectionInfo.ID
 					collectionName := replicateAPIEvent.CollectionInfo.Schema.Name
 					msgTime, _ := tsoutil.ParseHybridTs(replicateAPIEvent.CollectionInfo.CreateTime)
+					startPositionFailed := false
 					for _, startPosition := range replicateAPIEvent.CollectionInfo.StartPositions {
 						metaPosition := &meta.PositionInfo{
 							Time: msgTime,
@@ -1094,8 +1096,12 @@ func (e *MetaCDC) startReplicateAPIEvent(replicateCtx context.Context, entity *R
 								zap.String("task_id", taskID),
 								zap.Error(err))
 							_ = e.pauseTaskWithReason(taskID, "fail to update start task position, err:"+err.Error(), []meta.TaskState{})
-							return
+							startPositionFailed = true
+							break
 						}
+					}
+					if startPositionFailed {
+						continue
 					}
 				}
 				err := entity.writerObj.HandleReplicateAPIEvent(replicateCtx, replicateAPIEvent)
@@ -1104,7 +1110,7 @@ func (e *MetaCDC) startReplicateAPIEvent(replicateCtx context.Context, entity *R
 						zap.String("task_id", taskID),
 						zap.Error(err))
 					_ = e.pauseTaskWithReason(taskID, "fail to handle the replicate event, err: "+err.Error(), []meta.TaskState{})
-					return
+					continue
 				}
 				if replicateAPIEvent.EventType == api.ReplicateDropCollection {
 					writeCallback := NewWriteCallback(e.metaStoreFactory, e.rootPath, taskID)
@@ -1117,7 +1123,7 @@ func (e *MetaCDC) startReplicateAPIEvent(replicateCtx context.Context, entity *R
 							zap.String("task_id", taskID),
 							zap.Error(err))
 						_ = e.pauseTaskWithReason(taskID, "fail to delete collection position, err:"+err.Error(), []meta.TaskState{})
-						return
+						continue
 					}
 				}
 				metrics.APIExecuteCountVec.WithLabelValues(taskID, replicateAPIEvent.EventType.String()).Inc()
